@@ -104,6 +104,9 @@ pub open spec fn inode_target(t: InodeType) -> Seq<u8> {
 impl RootRef<'_> {
 //@prove root.RootRef.from_fd
 //@prove root.RootRef.try_clone
+//@prove root.RootRef.resolver_flags
+//@prove root.RootRef.set_resolver_flags
+//@prove root.RootRef.with_resolver_flags
 //@prove root.RootRef.open_subpath
 //@prove root.RootRef.resolve c14
 //@prove root.RootRef.resolve_nofollow c14
@@ -128,6 +131,9 @@ impl Root {
 //@prove root.Root.open
 //@prove root.Root.as_ref
 //@prove root.Root.try_clone
+//@prove root.Root.resolver_flags
+//@prove root.Root.set_resolver_flags
+//@prove root.Root.with_resolver_flags
 //@prove root.Root.resolve c14
 //@prove root.Root.resolve_nofollow c14
 //@prove root.Root.open_subpath c14
